@@ -83,4 +83,10 @@ TEXT = {
         "note": NOTE,
         "technique": "runtime monitor: query-history checker (first-answer map + fresh-copy differential) and a scratch-slot invariant scan at every quiescent point; Miri leg",
     },
+    "C11": {
+        "level": "Exploration by runtime monitoring: hashes returned by the library for many representations of one function are compared with the defining sum computed independently from the truth table (which also makes them equal to each other), negation and cached-vs-recomputed are checked, and the hash-identified builders are driven through operation histories with an eq()-on-equal-functions monitor (all primes) and a truth-table oracle (64-bit prime).",
+        "design_ref": "DESIGN.md section 4, C11",
+        "note": NOTE,
+        "technique": "runtime monitor: defining-sum reference model for hashes across representations + operation-history monitor of the semantic builders (equality on equal functions; truth-table oracle over the 64-bit field)",
+    },
 }
